@@ -6,14 +6,14 @@ from . import sem as S
 # property -> (families quick, families thorough)
 ALLF = ["F1", "F1b", "F2", "F3", "F4", "F4b", "F5", "F6", "F7", "F8", "F8m", "F9", "F10", "F11", "F13"]
 FAMILIES = {
-    "C01": (["F1", "F1b", "F2", "F3", "F4", "F4b", "F5", "F6", "F7", "F8m", "F9", "F10", "F11", "F14", "R"], ALLF + ["F14", "F20", "FC1", "FC2", "R"]),
+    "C01": (["F1", "F1b", "F2", "F3", "F4", "F4b", "F5", "F6", "F7", "F8m", "F9", "F10", "F11", "F14", "R"], ALLF + ["F14", "F20", "F8p", "FC1", "FC2", "R"]),
     "C02": (["F1b", "F2", "F3", "F4", "F4b", "F5", "F6", "F8", "F9", "F13", "F14"], ALLF + ["F14", "R"]),
     "C03": (["F1", "F1b", "F2", "F3", "F7", "F8", "F8m", "F9", "F11", "R"], ALLF + ["FC2", "R"]),
-    "C04": (["F8", "F8m", "F5", "F6"], ["F8", "F8m", "F1", "F1b", "F5", "F6", "F7", "F9", "F14", "FC2", "R"]),
-    "C09": (["F1", "F5", "F4", "F8", "F20"], ["F1", "F2", "F4", "F5", "F8", "F8m", "F9", "F14", "F20", "R"]),
+    "C04": (["F8", "F8m", "F8p", "F5", "F6"], ["F8", "F8m", "F8p", "F1", "F1b", "F5", "F6", "F7", "F9", "F14", "FC2", "R"]),
+    "C09": (["F1", "F5", "F4", "F8", "F20"], ["F1", "F2", "F4", "F5", "F8", "F8m", "F8p", "F9", "F14", "F20", "R"]),
     "C13": (["F1", "F3", "F6", "F7", "F13"], ALLF + ["R"]),
     "C16": (["F10", "F11", "F3", "F4", "F4b"], ["F10", "F11", "F1", "F2", "F3", "F4", "F4b", "F8"]),
-    "C12": (["FC1", "FC2", "F6"], ["FC1", "FC2", "F6", "F1", "F13"]),
+    "C12": (["FC1", "FC2", "F6", "F8m"], ["FC1", "FC2", "F6", "F8m", "F1", "F13"]),
 }
 
 
@@ -250,16 +250,28 @@ def run_sem(prop, tier, v, families=None, opts=None, replay_cases=None, want=("s
             # model checking with the machines' real Next relation: every state of every run of a sample of the
             # dumped programs is explored, invariants on every state, termination as a liveness property
             t0 = time.time()
-            nsp = 40 if tier == "quick" else 400
+            nsp = 100 if tier == "quick" else 1000
             total = sum(1 for _ in open(paths["vm"]))
             every = max(1, total // nsp)
             spf = paths["vm"] + ".space"
             picked = []
+            kept_hays = []
+            # the exploration is of every state of every run, so it is kept to the haystacks of at most three
+            # characters (an exponential search on five characters is legitimate and has millions of states; the
+            # step bound below is about runs that grow for ever, and the cost judge handles long ones)
             with open(spf, "w") as o:
                 for k, line in enumerate(open(paths["vm"])):
                     if k % every == 0 and len(picked) < nsp:
-                        o.write(line)
-                        picked.append(json.loads(line)["rid"])
+                        rj = json.loads(line)
+                        keep = [i for i, h in enumerate(rj["hays"]) if len(h) <= 3]
+                        if not keep:
+                            continue
+                        rj["hays"] = [rj["hays"][i] for i in keep]
+                        if "bfirst" in rj:
+                            rj["bfirst"] = [rj["bfirst"][i] for i in keep if i < len(rj["bfirst"])]
+                        o.write(json.dumps(rj) + "\n")
+                        picked.append(rj["rid"])
+                        kept_hays.append(keep)
             # depth-first queue: a run that never ends is followed to the step bound at once instead of after every
             # other run has been explored to the same depth (33 s instead of > 25 min on such a tree; same result otherwise)
             res = C.tlc("MCVMSpace", "MCVMSpace.cfg", env={"OBS": spf}, workers=8, xmx="10g", timeout=3000, workdir=work, allow_violation=True, deque=True)
@@ -274,7 +286,7 @@ def run_sem(prop, tier, v, families=None, opts=None, replay_cases=None, want=("s
                 mh = _re.search(r"hi = (\d+)", res.text)
                 mw = _re.search(r'which = "(\w+)"', res.text)
                 me = _re.search(r'eng = "(\w+)"', res.text)
-                R["space_violation"] = {"what": inv, "rid": picked[int(m.group(1)) - 1] if m else None, "h": int(mh.group(1)) - 1 if mh else None,
+                R["space_violation"] = {"what": inv, "rid": picked[int(m.group(1)) - 1] if m else None, "h": kept_hays[int(m.group(1)) - 1][int(mh.group(1)) - 1] if (m and mh) else None,
                                         "prog": mw.group(1) if mw else None, "engine": me.group(1) if me else None, "tlc": res.text[-2500:]}
             C.log("machine state spaces (MCVMSpace): %d programs, %d states in %.1fs%s" % (len(picked), res.distinct, time.time() - t0,
                   (" VIOLATED " + inv) if inv else ""))
